@@ -65,7 +65,7 @@ func NewRemoteReplicator(
 		cliFct:     cliFct,
 		stateMgr:   stateMgr,
 		isSuspend:  atomic.NewBool(false),
-		suspend:    make(chan struct{}),
+		suspend:    make(chan struct{}, 1), // buffered: the notifier holds the state manager's lock, it must not wait
 		statistics: metrics.NewStorageRemoteReplicatorStatistics(channel.State.Database, channel.State.ShardID.String()),
 		logger:     logger.GetLogger("Replica", "RemoteReplicator"),
 	}
